@@ -87,7 +87,10 @@ class Scen:
         real_put = q.put
 
         def put(m, *a, **kw):
-            self.put_order.append(m)
+            # the moment a message enters the connection's queue is what "queued" means; should the queue carry
+            # wrappers (tuples, records) the message inside is what counts
+            inner = m if isinstance(m, Message) else next((x for x in (m if isinstance(m, (tuple, list)) else ()) if isinstance(x, Message)), m)
+            self.put_order.append(inner)
             return real_put(m, *a, **kw)
         q.put = put
         self.msgs = []
